@@ -7,6 +7,7 @@ package main
 import (
 	"bytes"
 	"math/big"
+	"strings"
 
 	"github.com/nspcc-dev/neo-go/pkg/core/block"
 	"github.com/nspcc-dev/neo-go/pkg/core/mpt"
@@ -361,6 +362,24 @@ func boundaryCorpus() []corpusCase {
 		w.WriteBytes(body)
 		add(rawCase("message0", w.Bytes()))
 	}
+	// --- a valid message whose payload is exactly payload.MaxSize bytes must be accepted ---
+	add(func(rn *runner, k int) {
+		e := payload.NewExtensible()
+		e.Category = "x"
+		e.Data = []byte{}
+		base, _ := encBytes(e)
+		e.Data = make([]byte, payload.MaxSize-len(base)-4) // the length prefix of Data grows from 1 to 5 bytes
+		c := codecByName["message0"]
+		b, _, err := c.encSeg(network.NewMessage(network.CMDExtensible, e))
+		if err != nil {
+			rn.o.Fail("message-encode-fails", k, "%v", err)
+			return
+		}
+		rep := rn.bytesCase(k, c, b)
+		if len(b) != 2+5+payload.MaxSize || !strings.HasPrefix(rep.obs, "ok rest=0 ") {
+			rn.o.Fail("message0-roundtrip", k, "a message with a payload of exactly payload.MaxSize bytes (%d in all) is not accepted: %s", len(b), trunc(rep.obs, 60))
+		}
+	})
 	// --- consensus: recovery message arrays at and over the 255 cap ---
 	for _, n := range []int{255, 256} {
 		sw := io.NewBufBinWriter()
